@@ -3,13 +3,15 @@ import itertools
 
 ID = "C05"
 SUBCMD = "c05"
-IMPORTS = ["ArithSpec"]
-HARNESS = "c05_harness"
-COQ_TARGETS = ["ArithSpec.vo", "ArithSpecProofs.vo", "Props/C05.vo"]
-CORRESPONDENCE = ("c05_expected (ArithSpec.v: lexer + iterative reference evaluator arith_ref, error text through "
-                  "FileSet.spec_position) = parsley.Evaluate on the workload grammar of harness/c05.go (value / exact "
-                  "division-by-zero text / parse error), and = the driver's own scannerless Go reference evaluator")
-RULE = ("every byte string up to length 4 (quick) / 5 (thorough) over {1 0 - + * / ( ) space}; random well-formed "
+IMPORTS = ["Grammar", "Arith"]
+HARNESS = "c05_engine_harness"
+COQ_TARGETS = ["ArithSpec.vo", "ArithSpecProofs.vo", "Arith.vo", "ArithProofs.vo", "Props/C05.vo"]
+CORRESPONDENCE = ("c05e_expected: Arith.arith_run (the ENGINE MODEL's parsley.Evaluate on the grammar Arith.arith_rules with the "
+                  "binop interpreter, inputs up to 64 bytes: value and complete error text) = parsley.Evaluate on the real "
+                  "combinators built from the same grammar term; ArithSpec.arith_ref (lexer + iterative reference evaluator) = "
+                  "the driver's own scannerless Go reference evaluator; above 64 bytes the reference's prediction (value / "
+                  "exact division-by-zero text / parse-error prefix) = parsley.Evaluate")
+RULE = ("every byte string up to length 4 over {1 0 - + * / ( ) space} (thorough: also length 5 without +); random well-formed "
         "expressions (depth <= 8, chains of - and /, mixed precedence, redundant parentheses, signed / hex / octal / "
         "int64-edge literals, overflowing sums and products, zero divisors at random depths, white space styles none / "
         "spaces / tabs / LF / FF / CRLF / leading / trailing, 1 to ~300 bytes); long left-nested chains; ill-formed "
@@ -247,10 +249,11 @@ def generate(rng, tier):
         for off in OFFSETS:
             add(s, {"stream": "hand", "off": off})
     # exhaustive small strings
-    alpha = "10-+*/() "
-    n = 4 if tier == "quick" else 5
-    for k in range(0, n + 1):
-        for tpl in itertools.product(alpha, repeat=k):
+    for k in range(0, 5):
+        for tpl in itertools.product("10-+*/() ", repeat=k):
+            add("".join(tpl), {"stream": "enumerated"})
+    if tier != "quick":
+        for tpl in itertools.product("10-*/() ", repeat=5):
             add("".join(tpl), {"stream": "enumerated"})
     nw, nc, nn, nm = (1200, 150, 100, 1300) if tier == "quick" else (14000, 1500, 800, 14000)
     good = []
